@@ -1,5 +1,6 @@
 import WhVerif.Util.Proto
 import WhVerif.Model.C06
+import WhVerif.Model.C06Affine
 namespace WhVerif.Driver.C06
 open Lean WhVerif.Proto WhVerif.C06
 
@@ -56,8 +57,58 @@ def fixes (j : Json) : Fixes :=
   let l := match getList? j "asis" with | some l => l.filterMap asStr? | none => []
   ⟨!l.contains "F12", !l.contains "F13", !l.contains "F14", !l.contains "F15", !l.contains "F16"⟩
 
+
+/-- `"affine": [gap_start, gap_extend, default_mismatch]` or null/absent = default branch -/
+def affine? (j : Json) : Option AffineCfg :=
+  match getNatList? j "affine" with
+  | some [a, b, c] => some ⟨a, b, c⟩
+  | _ => none
+
+def ofQTriples (l : List (Nat × Nat × Int)) : Json :=
+  ofList (fun t => Json.arr #[ofNat t.1, ofNat t.2.1, ofInt t.2.2]) l
+
+def optRestrictedList? (j : Json) (k : String) : Option (Option (List (List Nat))) :=
+  match j.getObjVal? k with
+  | .ok Json.null => some none
+  | .ok v => (natListList? v).map some
+  | _ => some none
+
+def handleAffine (op : String) (j : Json) : Option Json :=
+  let fx := fixes j
+  if op == "c06.affine" then
+    -- edit_distance_affine_gap(query, ref, mismatch_cost, gs, ge); "spec": also the brute-force minimum
+    match getSeq? j "query", getSeq? j "ref", getNatList? j "mismatch", getNat? j "gs", getNat? j "ge" with
+    | some q, some r, some mm, some gs, some ge =>
+      let qs : QSeq := q.zip mm
+      let base := [("dist", ofNat (editDistanceAffine gs ge qs r)), ("dp", ofNat (affineDP gs ge qs r))]
+      let withSpec := match getBool? j "spec" with
+        | some true => base ++ [("spec", ofNat (affineSpec gs ge qs r))]
+        | _ => base
+      some (Json.mkObj withSpec)
+    | _, _, _, _, _ => some badInput
+  else if op == "c06.realign_q" then
+    match (getObj? j "variant").bind variant?, optNatList? j "restricted", getSeq? j "query", getCigar? j "cigar",
+          getNat? j "i", getNat? j "consumed", getInt? j "query_pos", getSeq? j "reference", getNat? j "overhang" with
+    | some v, some r, some q, some c, some i, some k, some qp, some rf, some oh =>
+      some (match realignQ fx.f14 (affine? j) v r q c i k qp rf oh with
+        | .ok (some a) => Json.arr #[ofNat a.1, ofInt a.2]
+        | .ok none => Json.null
+        | .error e => Json.mkObj [("err", errJson e)])
+    | _, _, _, _, _, _, _, _, _ => some badInput
+  else if op == "c06.detect_ref_q" then
+    match getVariants? j "variants", optRestrictedList? j "restricted", getNat? j "j", getNat? j "ref_start",
+          getCigar? j "cigar", getSeq? j "query", getSeq? j "reference", getNat? j "overhang" with
+    | some vs, some rs, some jj, some st, some c, some q, some rf, some oh =>
+      let r := detectRefQ fx.f14 (affine? j) vs rs jj st c q rf oh
+      some (Json.mkObj [("out", ofQTriples r.1), ("err", optErr r.2)])
+    | _, _, _, _, _, _, _, _ => some badInput
+  else none
+
 def handle (op : String) (j : Json) : Option Json :=
   let fx := fixes j
+  match handleAffine op j with
+  | some r => some r
+  | none =>
   if op == "c06.iter" then
     match getNatList? j "positions", getNat? j "j", getNat? j "ref_start", getCigar? j "cigar" with
     | some ps, some jj, some st, some c =>
